@@ -246,6 +246,11 @@ def gen_source(prog: dict) -> str:
     for k in range(1, ncls + 1):
         kc = prog["cls"][k - 1]
         levels = max([1] + [len(prog["fn"][f - 1]["pre"]) for f in members[k]])
+        # bare_override: one more class level that overrides every member WITHOUT contracts of its own (the metaclass
+        # creates its checker from the inherited contracts); the effective contracts are what they were
+        bare = levels + 1 if prog.get("bare_override") else 0
+        if bare:
+            levels = bare
         kbase = kc.get("base", 0)
         base_inv = prog["cls"][kbase - 1]["inv"] if kbase else []
         own_inv = [c for c in kc["inv"] if c not in base_inv]
@@ -269,7 +274,11 @@ def gen_source(prog: dict) -> str:
             for f in members[k]:
                 fn = prog["fn"][f - 1]
                 n = len(fn["pre"])
-                first = levels - max(n, 1) + 1
+                if bare and lvl == bare:
+                    if fn["kind"] not in ("init", "new", "repr", "setattr"):
+                        body += _fn_source(prog, f, "    ", [], False, member_name(prog, f))
+                    continue
+                first = (levels - 1 if bare else levels) - max(n, 1) + 1
                 if fn["kind"] in ("init", "new"):
                     # constructors are declared once, in the root class (their contracts are not inherited)
                     if lvl != 1:
